@@ -110,7 +110,19 @@ func (p *PortSet) Union(other *PortSet) {
 
 // ContainedIn: return true if current PortSet object is contained in input PortSet object
 func (p *PortSet) ContainedIn(other *PortSet) bool {
-	return p.Ports.IsSubset(other.Ports)
+	if !p.Ports.IsSubset(other.Ports) {
+		return false
+	}
+	// a named port is contained only if other has the same named port, or allows the full ports range
+	// (any port number the name may be resolved to is then allowed)
+	if len(p.NamedPorts) > 0 && !interval.New(minPort, maxPort).ToSet().IsSubset(other.Ports) {
+		for namedPort := range p.NamedPorts {
+			if !other.NamedPorts[namedPort] {
+				return false
+			}
+		}
+	}
+	return true
 }
 
 // Intersection: update current PortSet object as intersection with input PortSet object
